@@ -265,7 +265,8 @@ def run_chk2plt_scenario(p, wd):
             continue
         exp = ck_expected(ck, gradp, reac, floor)
         n0 = len(fails)
-        compare_plotfile(out, exp, fails, "chk2plt output", data_mode="bits" if not floor else "close", rtol=1e-14, minmax_rtol=1e-12)
+        compare_plotfile(out, exp, fails, "chk2plt output", data_mode="bits" if not floor else "close", rtol=1e-14, minmax_rtol=1e-12,
+                         geom_rtol=1e-13)
         if len(fails) == n0:
             taste_ok(out, fails, "chk2plt output", coords=True)
         for f in fails[n0:]:
